@@ -74,6 +74,18 @@ RoundBig(x, n, mode) ==
      ELSE LET up == Up(x.s < 0, Parity(dm.q) = 0, Cmp(MulSmall(dm.r, 2), n), mode)
           IN Mul(n, IF up THEN Add(dm.q, FromInt(1)) ELSE dm.q)
 
+\* Duration fields are IEEE doubles: an exact integer field value v is stored as the double nearest to v
+\* (ties to even mantissa) - identical to v whenever |v| <= 2^53.
+RECURSIVE Pow2(_)
+Pow2(k) == IF k = 0 THEN FromInt(1) ELSE MulSmall(Pow2(k - 1), 2)
+TwoTo53 == [s |-> 1, l |-> <<992, 5474, 1992, 9007>>]
+RECURSIVE UlpExp(_, _)
+UlpExp(a, k) == IF Lt(a, MulSmall(Mul(TwoTo53, Pow2(k)), 1)) THEN k ELSE UlpExp(a, k + 1)   \* least k with |v| < 2^(53+k)
+F64Nearest(v) == IF Le(Abs(v), TwoTo53) THEN v
+                 ELSE RoundBig(v, Pow2(UlpExp(Abs(v), 1)), "halfEven")
+DurF64(D) == Dur10(F64Nearest(D.y), F64Nearest(D.mo), F64Nearest(D.w), F64Nearest(D.d), F64Nearest(D.h), F64Nearest(D.mi),
+                   F64Nearest(D.s), F64Nearest(D.ms), F64Nearest(D.us), F64Nearest(D.ns))
+
 \* class label of a rounding situation (used for known-finding keys and for instantiating cases)
 RoundCls(x, n) ==
   LET dm == FloorDivMod(x, n)   c == Cmp(MulSmall(dm.r, 2), n)
